@@ -1,0 +1,192 @@
+//go:build verif
+
+// Thin add-only accessors for the /verif runtime monitors (properties C30-C33).
+// Nothing here implements protocol logic: every function forwards to the
+// unexported constructor/method/field it names. Without the build tag
+// "verif" this file is not compiled.
+package network
+
+import (
+	"net"
+
+	"github.com/icon-project/goloop/common/log"
+	"github.com/icon-project/goloop/module"
+	"github.com/icon-project/goloop/server/metric"
+)
+
+// ---- Packet (C30, C33) ----
+
+// VerifPacketInfo is a copy of the wire-visible fields of a Packet.
+type VerifPacketInfo struct {
+	Protocol    uint16
+	SubProtocol uint16
+	Src         []byte
+	Dest        byte
+	TTL         byte
+	Payload     []byte
+	Hash        uint64
+	ExtInfo     uint16
+	Ext         []byte
+}
+
+// VerifNewPacket builds a Packet with the given wire-visible fields.
+func VerifNewPacket(pi, spi uint16, src []byte, dest, ttl byte, payload []byte, extHint byte, ext []byte) *Packet {
+	pkt := NewPacket(module.ProtocolInfo(pi), module.ProtocolInfo(spi), payload)
+	if src != nil {
+		pkt.src = NewPeerID(src)
+	}
+	pkt.dest = dest
+	pkt.ttl = ttl
+	pkt.extendInfo = newPacketExtendInfo(extHint, len(ext))
+	pkt.ext = ext
+	return pkt
+}
+
+// VerifPacketFields returns the wire-visible fields of pkt.
+func VerifPacketFields(pkt *Packet) VerifPacketInfo {
+	i := VerifPacketInfo{
+		Protocol:    pkt.protocol.Uint16(),
+		SubProtocol: pkt.subProtocol.Uint16(),
+		Dest:        pkt.dest,
+		TTL:         pkt.ttl,
+		Payload:     pkt.payload,
+		Hash:        pkt.hashOfPacket,
+		ExtInfo:     uint16(pkt.extendInfo),
+		Ext:         pkt.ext,
+	}
+	if pkt.src != nil {
+		i.Src = pkt.src.Bytes()
+	}
+	return i
+}
+
+const (
+	VerifPacketHeaderSize = packetHeaderSize
+	VerifPacketFooterSize = packetFooterSize
+	VerifDestAny          = p2pDestAny
+	VerifDestSeed         = p2pDestSeed
+	VerifDestRoot         = p2pDestRoot
+	VerifDestPeer         = p2pDestPeer
+	VerifRoleNone         = p2pRoleNone
+	VerifRoleSeed         = p2pRoleSeed
+	VerifRoleRoot         = p2pRoleRoot
+	VerifConnTypeNone     = p2pConnTypeNone
+	VerifConnTypeReserved = p2pConnTypeReserved
+	VerifSecureFrameSize  = secureConnFrameSize
+	VerifSecureHeaderSize = secureConnHeaderSize
+)
+
+// ---- secureKey / SecureConn (C31, C32) ----
+
+// VerifSecureKey wraps an ephemeral secureKey.
+type VerifSecureKey struct{ k *secureKey }
+
+func VerifNewSecureKey() *VerifSecureKey {
+	return &VerifSecureKey{newSecureKey(DefaultSecureEllipticCurve, nil)}
+}
+func (v *VerifSecureKey) PublicKey() []byte { return v.k.marshalPublicKey() }
+func (v *VerifSecureKey) Setup(sa SecureAeadSuite, peerPublicKey []byte, defaultLower bool, numOfSecret int) error {
+	return v.k.setup(sa, peerPublicKey, defaultLower, numOfSecret)
+}
+func (v *VerifSecureKey) Secrets() [][]byte { return v.k.secret }
+func (v *VerifSecureKey) Extra() []byte     { return v.k.extra }
+func (v *VerifSecureKey) IsLower() bool     { return v.k.isLower }
+func (v *VerifSecureKey) NewConn(conn net.Conn, sa SecureAeadSuite) (*SecureConn, error) {
+	return NewSecureConn(conn, sa, v.k)
+}
+
+// VerifSecureConnSecrets returns the directional secrets a SecureConn uses.
+func VerifSecureConnSecrets(c *SecureConn) (in, out []byte) {
+	return c.in.secret, c.out.secret
+}
+
+// ---- Authenticator handshake (C32) ----
+
+func VerifNewAuthenticator(w module.Wallet, l log.Logger) *Authenticator {
+	return newAuthenticator(w, l)
+}
+
+var (
+	VerifProtoAuth             = p2pProtoAuth
+	VerifProtoAuthSecureReq    = p2pProtoAuthSecureRequest
+	VerifProtoAuthSecureResp   = p2pProtoAuthSecureResponse
+	VerifProtoAuthSignatureReq = p2pProtoAuthSignatureRequest
+	VerifProtoAuthSignatureRsp = p2pProtoAuthSignatureResponse
+)
+
+// VerifNextHandler is a PeerHandler that only reports what it is handed.
+type VerifNextHandler struct {
+	OnPeerFn  func(p *Peer)
+	OnCloseFn func(p *Peer)
+}
+
+func (h *VerifNextHandler) onPeer(p *Peer) {
+	if h.OnPeerFn != nil {
+		h.OnPeerFn(p)
+	}
+}
+func (h *VerifNextHandler) onPacket(pkt *Packet, p *Peer) {}
+func (h *VerifNextHandler) onClose(p *Peer) {
+	if h.OnCloseFn != nil {
+		h.OnCloseFn(p)
+	}
+}
+func (h *VerifNextHandler) setNext(ph PeerHandler) {}
+
+// VerifSetNext chains next behind the authenticator.
+func (a *Authenticator) VerifSetNext(next *VerifNextHandler) { a.setNext(next) }
+
+// VerifDispatch hands a fresh connection to the authenticator the way
+// PeerDispatcher.onAccept/onConnect + dispatchPeer do.
+func (a *Authenticator) VerifDispatch(conn net.Conn, in bool, channel string, l log.Logger) *Peer {
+	p := newPeer(conn, in, "", l)
+	if !in {
+		p.setChannel(channel)
+	}
+	p.setMetric(metric.NewNetworkMetric(metric.DefaultMetricContext()))
+	p.setPacketCbFunc(a.onPacket)
+	p.setCloseCbFunc(a.onClose)
+	a.onPeer(p)
+	return p
+}
+
+// VerifPeerSessionExtra returns the session secret the peer's handshake signs.
+func VerifPeerSessionExtra(p *Peer) []byte {
+	if p.secureKey == nil {
+		return nil
+	}
+	return p.secureKey.extra
+}
+
+// ---- PeerToPeer.onPacket (C33) ----
+
+func VerifNewP2P(channel string, selfID module.PeerID, l log.Logger) *PeerToPeer {
+	self := newPeer(nil, false, "", l)
+	self.setID(selfID)
+	return newPeerToPeer(channel, self, nil, nil, l)
+}
+
+// VerifNewPeer makes a connected peer with the given id/role/connection type/protocols.
+func VerifNewPeer(conn net.Conn, id module.PeerID, role PeerRoleFlag, connType PeerConnectionType,
+	protocols []module.ProtocolInfo, l log.Logger) *Peer {
+	p := newPeer(conn, true, "", l)
+	p.setID(id)
+	p.setRole(role)
+	p.setConnType(connType)
+	pis := newProtocolInfos()
+	pis.Set(protocols)
+	p.setProtocolInfos(pis)
+	p.setMetric(metric.NewNetworkMetric(metric.DefaultMetricContext()))
+	return p
+}
+
+func (p2p *PeerToPeer) VerifSetCb(pi module.ProtocolInfo, f func(pkt *Packet, p *Peer)) {
+	p2p.setCbFunc(pi, f, nil)
+}
+func (p2p *PeerToPeer) VerifOnPacket(pkt *Packet, p *Peer) { p2p.onPacket(pkt, p) }
+
+// VerifStartReceive starts the peer's real receive routine delivering to p2p.onPacket.
+func (p2p *PeerToPeer) VerifStartReceive(p *Peer) {
+	p.setCloseCbFunc(nil)
+	p.setPacketCbFunc(p2p.onPacket)
+}
